@@ -204,6 +204,18 @@ pub fn run(thorough: bool) -> Outcome {
             }
         }
     }
+    // the shortest well-formed heads: a start line and the blank line, nothing else (17 .. 20 bytes for a response with an
+    // empty reason phrase)
+    for version in ["HTTP/1.0", "HTTP/1.1"] {
+        for status in [100u16, 200, 204, 304, 404] {
+            for reason in ["", "K", "OK"] {
+                msgs.push((Msg::response(version, status, reason, vec![]), "minimal-head"));
+            }
+        }
+        for (method, target) in [("GET", "/"), ("HEAD", "/"), ("OPTIONS", "*"), ("GET", "/a")] {
+            msgs.push((Msg::request(version, method, target, vec![]), "minimal-head"));
+        }
+    }
     // header lists
     let max = if thorough { 3 } else { 2 };
     for l in header_lists(true, max) {
